@@ -247,10 +247,22 @@ class BlockNet(Engine):
             if 'wit-commitment-in-other-tx' in witrules and len(blk['txs']) > 1:
                 blk['txs'][1]['vout'].append({'value': 0, 'script': cscript})
             else:
+                dec = r[2] % 6
+                if dec == 3:
+                    # the commitment output may be longer than 38 bytes: what follows the hash is free
+                    cscript += 'ab' * (1 + r[1] % 40)
                 blk['txs'][0]['vout'].append({'value': 0, 'script': cscript})
-                if r[2] % 3 == 0:
+                short = (BR.COMMIT_MAGIC + bytes(range(1, 32)))[:6 + (r[1] % 32)].hex()      # 6..37 bytes: not a candidate
+                if dec == 0:
                     # an earlier, stale commitment-looking output: the last one counts
                     blk['txs'][0]['vout'].insert(0, {'value': 0, 'script': (BR.COMMIT_MAGIC + bytes(32)).hex()})
+                elif dec == 1:
+                    # a LATER output that starts like a commitment but is too short to be one
+                    blk['txs'][0]['vout'].append({'value': 0, 'script': short})
+                    ctx.fault('commitment-lookalike.short-after')
+                elif dec == 2:
+                    blk['txs'][0]['vout'].insert(0, {'value': 0, 'script': short})
+                    ctx.fault('commitment-lookalike.short-before')
         if blk['txs']:
             blk['merkle'] = RW.block_merkle(blk).hex()
         if 'merkle-wrong' in rules:
